@@ -274,6 +274,44 @@ def site_visitors(ctx: Ctx) -> list[SiteVisitor]:
 # P1: indices — a refusal spends none, the selection sees the index just spent,
 # every candidate is a site or a refusal
 
+def g3_whole_function_declines(ctx: Ctx):
+    """A rewrite may decline a whole function up front (`raise TransformDeclined` in `apply_with_edits`, ahead of the
+    walk).  The listings run the walk without `apply_with_edits`, so whatever that test asks has to be asked of each
+    candidate as well, or `sites()` lists points that every aim declines and `refusals()` is silent about them.  For every
+    transform whose `apply_with_edits` declines up front on a test of the function alone, the rewriter's per-candidate
+    verification declines on the same fact."""
+    n = 0
+    for rel in sorted(r_ for r_ in ctx.repo.modules if r_.startswith(T) and r_.endswith('.py')):
+        for q, fn in ctx.repo.functions(rel):
+            if not q.endswith('.apply_with_edits'):
+                continue
+            ups = [s for s in fn.body if isinstance(s, ast.If) and any(isinstance(x, ast.Raise) and 'TransformDeclined' in norm(x) for x in s.body)]
+            for u in ups:
+                n += 1
+                # the fact tested: the helper called on `func...` (e.g. fpy_alias(func.env)) compared with None
+                helpers = [call_name(k) for k in calls_in(u.test)]
+                facts = [h for h in helpers if h]
+                mirrored = False
+                for q2, f2 in ctx.repo.functions(rel):
+                    if q2.split('.')[-1] not in ('_verify', '_refuses', '_candidate') or '.' not in q2:
+                        continue
+                    cls2 = q2.split('.')[0]
+                    inits = ctx.repo.methods(rel, cls2, inherited=False).get('__init__')
+                    # attributes of the rewriter computed from the same helper
+                    attrs = set()
+                    if inits is not None:
+                        for s2 in ast.walk(inits[2]):
+                            if isinstance(s2, ast.Assign) and isinstance(s2.targets[0], ast.Attribute) and any(call_name(k) in facts for k in calls_in(s2.value)):
+                                attrs.add(s2.targets[0].attr)
+                    for i2 in [x for x in ast.walk(f2) if isinstance(x, ast.If)]:
+                        tests_fact = any(call_name(k) in facts for k in calls_in(i2.test)) or any(isinstance(x, ast.Attribute) and x.attr in attrs for x in ast.walk(i2.test))
+                        declines = any(isinstance(x, ast.Return) and isinstance(x.value, ast.Call) and call_name(x.value) == 'Declined' for x in i2.body)
+                        mirrored = mirrored or (tests_fact and declines)
+                ctx.check(mirrored, rel, u, q, f'the up-front decline `{norm(u.test)[:70]}` is also a decline of each candidate',
+                          'only `apply_with_edits` asks: sites() lists blocks that every aim declines, refusals() says nothing -- float_to_fixed in a module that binds no name to `fpy2`')
+    ctx.note(f'{n} up-front decline(s) found in the transforms')
+
+
 def g2_inline_captures(ctx: Ctx):
     """A call whose callee cannot be spliced in because of the names it captures -- one of them is a local variable of the
     caller, or the caller captures another value under it -- is known to be so from the call, the callee and the caller
@@ -1698,6 +1736,7 @@ RULES = [
     Rule('C19.T1', '_SITES / _REFUSALS name the transform each strategy runs', t1_wiring, 60, 'T'),
     Rule('C19.T2', 'forwarding, check_site, check_where and selection decide every ordering as documented', t2_forwarding, 49, 'T'),
     Rule('C19.P5', 'edits are accounted per statement; prelude passes report what they prepend; predicate listings agree with the walk', p5_edit_accounting, 15, 'P'),
+    Rule('C19.G3', 'a whole-function decline of a rewrite is also a decline of each candidate, so that its listings agree with it', g3_whole_function_declines, 1, 'G'),
     Rule('C19.G2', 'inline: a call whose callee captures a name the caller binds (or captures differently) is a refusal, decided before the index is spent', g2_inline_captures, 7, 'G'),
     Rule('C19.G1', 'listing the sites of a rounding pass answers for an operation recorded under no scope (= C10.G2)', lambda ctx: __import__('sa.props.c10', fromlist=['g2_scopeless_operations']).g2_scopeless_operations(ctx), 8, 'G'),
     Rule('C19.P4', 'aimed apply_with_edits: check_where before, check_site after, own edits reported; one rewriter for listing and rewriting', p4_bracket, 80, 'P'),
@@ -1709,6 +1748,8 @@ T = 'fpy2/transform/'
 FU, SL, WU, RI, FI = T + 'for_unroll.py', T + 'split_loop.py', T + 'while_unroll.py', T + 'round_insert.py', T + 'func_inline.py'
 
 MUTANTS = [
+    Mutant('whole-function-decline-unknown-to-the-listings', T + 'float_to_fixed.py', "        if self.alias is None:\n            # the whole-function precondition of `apply`, said of each block so\n            # that a listing does not count blocks no aim can rewrite\n            return Declined(\n                'the rewrite names a context constructor, and `fpy2` is not '\n                'in scope to name it by'\n            )\n", "", 'C19.G3',
+           'finding F128 before its repair: sites(float_to_fixed, f) lists blocks every aim declines'),
     Mutant('listing-always-for-the-unflattened-callee', FI, "        None if funcs is None else set(funcs),\n        recursive=recursive,\n    )", "        None if funcs is None else set(funcs),\n        recursive=False,\n    )", 'C19.G2',
            'finding F136 before its repair: the listing looks at the callee alone, the rewrite flattens it'),
     Mutant('captured-name-clash-found-after-the-site-is-counted', FI, "            captures=self._captures(e),\n", "", 'C19.G2',
